@@ -139,6 +139,11 @@ def scenarios(rng: random.Random, tier: str):
     out.append(nodegen.CONFIGS["basic"] + " | start | " + " | ".join(
         f"acc | rx {i} " + nodegen.cer("stranger.x", "4", n(), n()) for i in range(4)) + " | tick")
     out.append(nodegen.CONFIGS["out"] + " | start fail,fail | adv 6 | dial fail,ok | adv 6")
+    # an immediate connect() failure of every errno class (network / host unreachable, address not available, timed out,
+    # permission): nothing is left registered, the peer is dialled again after its wait
+    for k in ("failU", "failH", "failA", "failT", "failX"):
+        out.append(nodegen.CONFIGS["out"] + f" | start {k},{k} | tick | adv 6 | dial {k},ok | adv 6 | tick")
+        out.append(nodegen.CONFIGS["out"] + f" | start ok,{k} | rx 0 " + nodegen.cea(2001, "peer1.x", 2001, 268435464) + f" | eof 0 | dial {k} | adv 6 | dial ok | adv 6 | tick")
     # a dialled peer answers with its name in another spelling (host identities compare case-insensitively); the connection
     # then ends in each way: the peer's record is released and it is dialled again
     for spell in ("PEER1.X", "Peer1.x"):
@@ -196,7 +201,7 @@ def scenarios(rng: random.Random, tier: str):
         f"rx {c} " + nodegen.cer("stranger.x", "4", n(), n()), f"rx {c} " + nodegen.cea(2001, rng.choice(["peer1.x", "peer2.x"]), n(), n()),
         f"rx {c} " + nodegen.cea(5010, "peer1.x", n(), n()), f"rx {c} " + nodegen.dpr(n(), n()), f"rx {c} " + nodegen.dpa(n(), n()),
         f"eof {c}", f"rerr {c} hard", f"adv {rng.choice([1, 3, 4, 5, 6, 11])}", f"conn {c} ok", f"conn {c} fail",
-        f"wr {c} hard", f"rx {c} " + nodegen.dwr(n(), n()), "dial " + rng.choice(["ok", "inp", "fail"]),
+        f"wr {c} hard", f"rx {c} " + nodegen.dwr(n(), n()), "dial " + rng.choice(["ok", "inp", "fail", "failU", "failT"]),
     ]
     for i in range(250 if tier == "quick" else 5000):
         cfgn = rng.choice(["two", "out", "basic", "rq"])
